@@ -51,6 +51,75 @@ mod key_transforms_n2 {
   pub use self::probe::*;
 }
 
+// The PINNED (verified) texts of the three files the units verify, compiled next to the current ones: when a function was restructured and the proof
+// overlay of its body no longer applies, a bounded differential run of current against pinned stands in for the lost body proof (tools/twin.py).
+#[cfg(pinned_twin)]
+mod pinned {
+  pub mod key_transforms {
+    include!(concat!(env!("VERIF_PINNED_DIR"), "/key_transforms.rs"));
+    pub fn state_string(m: &Mapper) -> String { format!("{:?}", m.state) }
+  }
+  pub mod fancy_layout_interpreting { include!(concat!(env!("VERIF_PINNED_DIR"), "/fancy_layout_interpreting.rs")); }
+  pub mod remapping_loop {
+    include!(concat!(env!("VERIF_PINNED_DIR"), "/remapping_loop.rs"));
+    pub mod probe { use super::*; include!("loop_probe.rs"); }
+    pub use self::probe::*;
+  }
+}
+#[cfg(pinned_twin)]
+fn twin(unit: &str, n: u64, seed: u64) -> i32 {
+  std::panic::set_hook(Box::new(|_| {}));
+  let mut diffs: Vec<serde_json::Value> = Vec::new();
+  let mut steps: u64 = 0;
+  if unit == "mapper" {
+    let mut r = key_transforms::Rng(seed.wrapping_mul(0x9E3779B97F4A7C15) | 1);
+    for _ in 0..n {
+      let (layout, hist) = key_transforms::gen_case(&mut r, true);
+      let (l1, h1) = (layout.clone(), hist.clone());
+      // (a panic counts as an answer: both must panic at the same step, or neither)
+      let run = std::panic::catch_unwind(move || {
+        let mut a = key_transforms::Mapper::for_layout(&l1); let mut b = pinned::key_transforms::Mapper::for_layout(&l1);
+        for (i, e) in h1.iter().enumerate() {
+          let (ra, rb) = if *e == key_transforms::RELEASE_ALL { (format!("{:?}", a.release_all()), format!("{:?}", b.release_all())) } else { (format!("{:?}", a.step(e.clone())), format!("{:?}", b.step(e.clone()))) };
+          if ra != rb || key_transforms::state_dump(&a) != pinned::key_transforms::state_string(&b) { return Some((i, ra, rb)); }
+        }
+        None
+      });
+      steps += hist.len() as u64;
+      let d = match run { Ok(None) => None, Ok(Some((i, ra, rb))) => Some(format!("step {}: current answers {}, the verified text {} (or the states differ)", i, ra, rb)),
+        Err(_) => { let l2 = layout.clone(); let h2 = hist.clone(); let pa = std::panic::catch_unwind(move || { let mut a = key_transforms::Mapper::for_layout(&l2); for e in h2.iter() { if *e == key_transforms::RELEASE_ALL { a.release_all(); } else { a.step(e.clone()); } } }).is_err();
+                    let l3 = layout.clone(); let h3 = hist.clone(); let pb = std::panic::catch_unwind(move || { let mut b = pinned::key_transforms::Mapper::for_layout(&l3); for e in h3.iter() { if *e == key_transforms::RELEASE_ALL { b.release_all(); } else { b.step(e.clone()); } } }).is_err();
+                    if pa != pb { Some(format!("current panics: {}, the verified text panics: {}", pa, pb)) } else { None } } };
+      if let Some(w) = d { diffs.push(serde_json::json!({"layout": layout, "history": hist.iter().map(key_transforms::ev_string).collect::<Vec<_>>(), "what": w})); if diffs.len() >= 40 { break; } }
+    }
+  } else if unit == "converter" {
+    let mut r = loader_probe::Rng(seed.wrapping_mul(0x9E3779B97F4A7C15) | 1);
+    for i in 0..n {
+      let (text, prog) = if i % 2 == 0 { let p = loader_probe::gen_program(&mut r); (loader_probe::program_json(&p), Some(loader_probe::program_value(&p))) } else { (loader_probe::gen_mutated_json(&mut r), None) };
+      let v: serde_json::Value = match serde_json::from_str(&text) { Ok(v) => v, Err(_) => continue };
+      let f = match std::panic::catch_unwind(|| layout_parsing_formatting::parse_layout_from_json(&v)) { Ok(Ok(f)) => f, _ => continue };
+      steps += 1;
+      let a = std::panic::catch_unwind(|| fancy_layout_interpreting::convert(&f).map(|l| l.mappings));
+      let b = std::panic::catch_unwind(|| pinned::fancy_layout_interpreting::convert(&f).map(|l| l.mappings));
+      let same = match (&a, &b) { (Ok(Ok(x)), Ok(Ok(y))) => x == y, (Ok(Err(_)), Ok(Err(_))) => true, (Err(_), Err(_)) => true, _ => false };
+      if !same { let w = format!("current: {}, the verified text: {}", match &a { Ok(Ok(x)) => format!("{} mappings", x.len()), Ok(Err(e)) => format!("rejects ({})", e), Err(_) => "panics".to_string() }, match &b { Ok(Ok(x)) => format!("{} mappings", x.len()), Ok(Err(e)) => format!("rejects ({})", e), Err(_) => "panics".to_string() });
+        diffs.push(match prog { Some(p) => serde_json::json!({"program": serde_json::to_string(&p).unwrap(), "json": text, "event_seed": 1, "what": w}), None => serde_json::json!({"json": text, "event_seed": 1, "what": w}) }); if diffs.len() >= 40 { break; } }
+    }
+  } else if unit == "loop" {
+    for i in 0..n {
+      let s = seed.wrapping_mul(1000003).wrapping_add(i);
+      let a = remapping_loop::case_log(s); let b = pinned::remapping_loop::case_log(s);
+      steps += a.len() as u64;
+      if a != b { let k = a.iter().zip(b.iter()).position(|(x, y)| x != y).unwrap_or(a.len().min(b.len()));
+        diffs.push(serde_json::json!({"loop_seed": s, "what": format!("driver call {}: current `{}`, the verified text `{}`", k, a.get(k).cloned().unwrap_or("(no further call)".to_string()), b.get(k).cloned().unwrap_or("(no further call)".to_string()))})); if diffs.len() >= 40 { break; } }
+    }
+  } else { eprintln!("unknown unit"); return 2; }
+  println!("{}", serde_json::json!({"unit": unit, "cases": n, "steps": steps, "differences": diffs}));
+  if diffs.is_empty() { 0 } else { 1 }
+}
+#[cfg(not(pinned_twin))]
+fn twin(_unit: &str, _n: u64, _seed: u64) -> i32 { eprintln!("built without --cfg pinned_twin"); 2 }
+
 fn main() {
   let args: Vec<String> = std::env::args().collect();
   if args.len() < 2 { eprintln!("usage: tmharness explore PROP SECONDS SEED | replay PROP FILE | n2 SECONDS SEED"); std::process::exit(2); }
@@ -68,6 +137,7 @@ fn main() {
     "tables" => { std::process::exit(tables_probe::tables()); },
     "loaderfuzz" => { let n: u64 = args[2].parse().unwrap(); let seed: u64 = args[3].parse().unwrap(); std::process::exit(loader_probe::loader_fuzz_bounded(n, seed)); },
     "fresh" => { let n: u64 = args[2].parse().unwrap(); let seed: u64 = args[3].parse().unwrap(); std::process::exit(key_transforms::fresh_bounded(n, seed)); },
+    "twin" => { let n: u64 = args[3].parse().unwrap(); let seed: u64 = args[4].parse().unwrap(); std::process::exit(twin(&args[2], n, seed)); },
     "programs" => { let n: u64 = args[2].parse().unwrap(); let seed: u64 = args[3].parse().unwrap(); std::process::exit(loader_probe::programs_bounded(n, seed)); },
     "anymod" => { std::process::exit(key_transforms::anymod()); },
     "c18" => {
